@@ -99,6 +99,10 @@ def main():
             text += (f" The decision logic of {GUARDS[pid]} is re-translated from the source into Lean on every run (translate/py2lean_guards.py → LK/Generated/Guards{pid}.lean) "
                      f"and proved to be the model's (LK/Proofs/Guards{pid}.lean); a broken obligation triggers the failing-input search.")
             tech += " + per-run translation of decision logic with proof obligations"
+        if pid == "C07":
+            text += (" The methods of RMSE and MAE (measure_list, compute_list_data, extract_list_metric, global_aggregate) are re-translated on every run (translate/py2lean_agg.py → LK/Generated/AggC07.lean, "
+                     "pandas missing-value semantics in LK/Model/SeriesOps.lean) and proved equal to the model's listData / extract / measureList / globalAgg.")
+            tech += " + per-run translation of the RMSE / MAE methods proved equal to the model"
         if pid == "C10":
             text += (" The linear systems the explicit / implicit row solvers and fold-ins hand to the Cholesky solver are re-translated on every run into Mathlib matrix terms (translate/py2lean_als.py → LK/Generated/AlsC10.lean) "
                      "and proved to be the normal equations of the documented objectives (ridge penalty reg × entry count; confidence-weighted system over all rows, via restriction to the row's entries).")
